@@ -36,7 +36,7 @@ structure ChunkObj where
   s : Text
   atts : Atts
   colorStr : Option Text := none
-  deriving Repr, Inhabited
+  deriving Repr, Inhabited, DecidableEq
 
 structure FmtObj where
   chunks : Nat
@@ -44,13 +44,13 @@ structure FmtObj where
   len : Option Nat := none
   s : Option Text := none
   width : Option Int := none
-  deriving Repr, Inhabited
+  deriving Repr, Inhabited, DecidableEq
 
 structure Heap where
   chunks : List ChunkObj := []
   lists : List (List Nat) := []
   fmts : List FmtObj := []
-  deriving Repr, Inhabited
+  deriving Repr, Inhabited, DecidableEq
 
 /-! ### values (memo fields are ignored) -/
 
@@ -752,7 +752,7 @@ inductive Res
   | text (t : Text)
   | int (i : Int)
   | err (e : PyErr)
-  deriving Repr, Inhabited
+  deriving Repr, Inhabited, DecidableEq
 
 def Res.one (r : Nat) : Res := .refs [r]
 def Res.ofExcept : Except PyErr Nat → Res
